@@ -228,9 +228,9 @@ func c19Run(e *core.Env) {
 	// (1) every integer |b| < 2^N
 	N := uint(20)
 	maxBits := 700
-	maxK := 400
+	maxK := 6500 // 10^6500 has 21593 bits: "multi-thousand-bit values" at every decimal-digit boundary
 	if e.Thorough() {
-		N, maxBits, maxK = 22, 4096, 1300
+		N, maxBits, maxK = 22, 4096, 20000
 	}
 	lim := int64(1) << N
 	stride := int64(e.NShards)
@@ -271,7 +271,7 @@ func c19Run(e *core.Env) {
 	for k := 0; k <= maxK; k++ {
 		ks = append(ks, k)
 	}
-	ks = append(ks, 5000, 20000)
+	ks = append(ks, 20000)
 	if e.Thorough() {
 		ks = append(ks, 99999, 100000)
 	}
@@ -391,9 +391,9 @@ func init() {
 		Rule:  "NumDigits on every integer of the dense range and on every bit-length / power-of-ten boundary (both signs) against the length of the decimal text; Decimal.Reduce and Context.Reduce on m*10^t for every m, t of the family x destination pre-states x contexts against value equality, no trailing zero, exact zero count; non-trivial = boundary value or an operand with trailing zeros / rounding",
 		Bounds: func(tier string) string {
 			if tier == "thorough" {
-				return "NumDigits: all |b| < 2^22; bit lengths 1..4096 (2^(n-1), 2^n-1, 10^k-1,10^k,10^k+1 inside); 10^k+-{0,1} for k <= 1300 and k in {5000,20000,99999,100000}; Reduce: m*10^t, m < 1000 not divisible by 10 + m around 2^64/10^t, t = 0..45, 4 exponents, both signs, zeros of 8 exponents x 7 destination pre-states x (p in {1,2,3,5} x 11 ranges x 3 modes + precision 0)"
+				return "NumDigits: all |b| < 2^22; bit lengths 1..4096 (2^(n-1), 2^n-1, 10^k-1,10^k,10^k+1 inside); 10^k+-{0,1} for every k <= 20000 and k in {99999,100000}; Reduce: m*10^t, m < 1000 not divisible by 10 + m around 2^64/10^t, t = 0..45, 4 exponents, both signs, zeros of 8 exponents x 7 destination pre-states x (p in {1,2,3,5} x 11 ranges x 3 modes + precision 0)"
 			}
-			return "NumDigits: all |b| < 2^20; bit lengths 1..700; 10^k+-{0,1} for k <= 400 and k in {5000,20000}; Reduce: every third m*10^t (m < 1000, t = 0..45) + 2^64/10^t edges x 7 destination pre-states x contexts"
+			return "NumDigits: all |b| < 2^20; bit lengths 1..700; 10^k+-{0,1} for every k <= 6500 (21593 bits) and k = 20000; Reduce: every third m*10^t (m < 1000, t = 0..45) + 2^64/10^t edges x 7 destination pre-states x contexts"
 		},
 		Run:    c19Run,
 		Replay: c19Replay,
